@@ -130,7 +130,8 @@ Proof. induction l as [|a t IH]; [reflexivity|]. cbn [tys_dist_ok]. rewrite <- I
 (* the analysis assigned a distance to every registered class and to every field type (and their parts) *)
 Definition dist_ok (g : grammar) : bool :=
   forallb (fun s => match s with
-                    | SC c => is_ok (gdist_ty g (TSym c)) && tys_dist_ok g (fields_of (g_decl g) (SC c))
+                    | SC c => is_ok (gdist_ty g (TSym c)) &&
+                              (is_abstract (g_decl g) (SC c) || tys_dist_ok g (fields_of (g_decl g) (SC c)))
                     | SB _ => true
                     end) (r_nodes (g_reg g)).
 
@@ -150,11 +151,12 @@ Let RunG {A} := @Run (r_alts r) A.
 Lemma Hinv : reg_inv d r. Proof. exact (df_inv d order g Han). Qed.
 
 Lemma reg_dist c : mem_sym (SC c) (r_nodes r) = true ->
-  (exists n, gdist_ty g (TSym c) = Ok n) /\ tys_dist_ok g (fields_of d (SC c)) = true.
+  (exists n, gdist_ty g (TSym c) = Ok n) /\ (is_abstract d (SC c) = false -> tys_dist_ok g (fields_of d (SC c)) = true).
 Proof.
   intro H. apply mem_sym_In in H. unfold dist_ok in Hdist. rewrite forallb_forall in Hdist.
   specialize (Hdist _ H). cbn beta iota in Hdist. apply andb_prop in Hdist. destruct Hdist as [A B].
-  split; [|exact B]. destruct (gdist_ty g (TSym c)) as [n|]; [eexists; reflexivity|discriminate].
+  split; [destruct (gdist_ty g (TSym c)) as [n|]; [eexists; reflexivity|discriminate]|].
+  intro Ha. fold d in B. rewrite Ha in B. exact B.
 Qed.
 
 Lemma concrete_no_alts c : is_abstract d (SC c) = false -> get_alts (r_alts r) c = None.
@@ -227,7 +229,7 @@ Proof.
     pose proof (vdepth_max_nonneg args) as Hnn.
     assert (Hc' : is_abstract d (SC c') = false /\ mem_sym (SC c') (r_nodes r) = true).
     { clear - Hp. induction Hp; [split; assumption|assumption]. }
-    destruct Hc' as [Hc'a Hc'm]. destruct (reg_dist c' Hc'm) as [_ Hfd].
+    destruct Hc' as [Hc'a Hc'm]. destruct (reg_dist c' Hc'm) as [_ Hfd]. specialize (Hfd Hc'a).
     assert (Hsat : forall c0, prod_of d r c0 c' -> Sat d r [] (TSym c0) (VNode c' args)) by (intros; constructor; assumption).
     assert (Hnev : noempty (VNode c' args) = true) by (rewrite noempty_node; exact Hne).
     revert deps ctx H0 Hd. induction Hp as [c0 Ha Hm|a l c0 c1 Ha Hg Hin Hp IHp]; intros deps ctx H0 Hd.
